@@ -373,7 +373,9 @@ func eqItems(a, b any) bool {
 	if a == nil || b == nil {
 		return a == b
 	}
-	if reflect.TypeOf(a).Comparable() && reflect.TypeOf(b).Comparable() {
+	// ask the values, not the types: an array or struct type is comparable even when
+	// an element or field holds a slice or a map, and == would then panic
+	if reflect.ValueOf(a).Comparable() && reflect.ValueOf(b).Comparable() {
 		return a == b
 	}
 	return reflect.DeepEqual(a, b)
